@@ -220,11 +220,10 @@ outer:
 		l := &layers[li]
 		ls := &layerStats{Name: l.name, What: l.what, Outcomes: map[string]int{}, Total: l.n, Complete: true}
 		stats = append(stats, ls)
-		first := (shard - base%nw + nw) % nw // first i with (base+i)%nw == shard
 		t0 := cpuNow()
-		for i := first; i < l.n; i += nw {
+		for i := 0; i < l.n; i++ {
 			gi := base + i
-			if gi < start {
+			if shardOf(gi, nw) != shard || gi < start {
 				continue
 			}
 			if time.Now().After(deadline) {
@@ -300,6 +299,17 @@ outer:
 	sort.Strings(sl)
 	enc.Encode(wmsg{T: "done", Stats: stats, Sigs: sl, Counts: counts, Capped: capped, Samples: samples})
 	out.Flush()
+}
+
+// shardOf assigns a program (by its global index) to a worker. A multiplicative hash instead of the plain
+// remainder: the index of a sequence program is its digit string, so index mod W would correlate with the last
+// symbols of the program (and with its cost).
+func shardOf(gi, nw int) int {
+	x := uint64(gi)*0x9e3779b97f4a7c15 + 0x7f4a7c15
+	x ^= x >> 31
+	x *= 0xbf58476d1ce4e5b9
+	x ^= x >> 29
+	return int(x % uint64(nw))
 }
 
 // cpuNow returns the CPU seconds (user+system) this process has consumed.
